@@ -1,7 +1,7 @@
 (* C15 - Origin algebra: interval laws, hull merging, flat multi-origins, exact slices.
    ONLY statements; every proof is `exact <lemma of Proofs/OriginProofs.v>`. *)
 From Oak Require Import Model.Origin Proofs.OriginProofs.
-Open Scope Z_scope.
+Local Open Scope Z_scope.
 
 (* ill-formed points and ranges are rejected at construction, well-formed ones accepted *)
 Theorem C15_point_guard : forall i l c,
